@@ -4,6 +4,18 @@ import json
 props = [json.loads(l) for l in open('/verif/properties.jsonl')]
 # id -> (technique, level text, level note, design ref)
 built = {
+ "C08": ("caller-buffer canary + frame-rule monitor on the library's own Before/AfterStep snapshots + lock-step reference model, over a provenance x transformer matrix",
+         "16 ways of producing a twin of a stack item (script push, DUP, 2DUP, 3DUP, OVER, 2OVER, PICK, TUCK, IFDUP, SPLIT halves, alt-stack, ROT/SWAP/ROLL) x 32 value-changing opcodes x 12 operand encodings x both eras x context variants are executed; after every step everything outside the opcode's footprint must be byte-identical, the stacks must equal the node-rule model, and after Execute the caller's script buffers, tx serialisation and previous output must be unchanged (except the documented recording of the spent output). Plus the C05 random/vector/mutant programs. Held on the executions observed.",
+         "Footprint table written from the opcode definitions (PICK/ROLL/CHECKMULTISIG judged by lock-step only); relies on State snapshots being deep copies (checked by C19).", "DESIGN.md §3 C08"),
+ "C10": ("reference-model monitor (math/big fee/size model) on before/after snapshots of Change, ChangeToAddress, ChangeToExistingOutput",
+         "Complete enumeration of output-count class {0,1,2,251-254 (+65,535 thorough)} x 8 destinations x 8 amount relations placed exactly on the model's thresholds x 24 standard quotes x {data = std, data != std}, every existing output index, and seeded random cases; conservation, untouched outputs, two-sided fee bound and the dust clause are judged. Held on the executions observed.",
+         "Trusts /verif/internal/refmoney and bt.DustLimit; quotes bounded (bytes >= 1, <= 10^6 sat/byte) so that uint64 arithmetic cannot overflow.", "DESIGN.md §3 C10"),
+ "C11": ("reference-model + identity monitor over Size/Estimate*/fee predicates, with signing through the library",
+         "Random standard/data output partitions, the complete relation x basis x 24 x 24 independent-rate grid and 200 / 20,000 signing keys (70/71/72-byte signatures all observed): total = len(Bytes) = std + data, fee = floor formula, predicates <=> inputs - outputs >= fee, EstimateSize before signing >= Size after, missing / unsupported spent scripts give an error. Held on the executions observed.",
+         "Equality of EstimateSize with the 107-byte placeholder is recorded, not judged (the statement asks for an upper bound).", "DESIGN.md §3 C11"),
+ "C12": ("history monitor: instrumented UTXO supplier records every call (deficit, batch, error); the history is replayed against the refmoney deficit model",
+         "All supplier scripts of <= 4 (thorough <= 5) steps over 8 step kinds x 4 starting transactions x quotes enumerated completely, plus 100k / 5M random histories: the k-th call happens only while the model's deficit is non-zero and receives exactly it; inputs = old inputs ++ returned UTXOs in order with final sequence; exhaustion -> insufficient funds; outputs untouched. Held on the histories observed.",
+         "UTXOs are P2PKH with 32-byte txids; the state of inputs after a failed Fund is not judged; a runaway supplier loop is cut by a sentinel after 1000 calls.", "DESIGN.md §3 C12"),
  "C02": ("reference-model monitor (independent FORKID sighash, validated on the node's sighash vectors) + before/after canary; exhaustive 128 hash types x every index x fixed shapes, then random shapes",
          "All 128 eight-bit FORKID hash types x every in-range and out-of-range input index x 50 fixed shapes (1-6 inputs, 0-6 outputs, script lengths 0/1/252/253/65535/65536) are executed and the preimage compared byte for byte, the digest with sha256d of the reference preimage; then 5k/300k random shapes; error classes must return an error and never panic; the transaction snapshot is unchanged. Held on the executions observed.",
          "Trusts /verif/internal/refsighash (re-validated each run: 500/500 sighash_bip143.json vectors) and crypto/sha256; other inputs always have 32-byte txids; hash types are 8-bit.", "DESIGN.md §3 C02"),
